@@ -171,6 +171,26 @@ where
         if res.is_err() || g != w {
             r.fail("eval!(range_inclusive,rev)", "eval!", desc.clone(), if res.is_err() { "<panic>".into() } else { format!("{:?}", g) }, format!("{:?}", w));
         }
+        // ranges passed by reference (`&Range` / `&RangeInclusive` are iterable too)
+        let (rg, ri) = (a..b, a..=b);
+        let mut g: Vec<T> = Vec::new();
+        let res = catch(|| {
+            konst::iter::for_each! {x in &rg => g.push(x); if g.len() > FUEL { panic!("FUEL") }}
+        });
+        let w: Vec<T> = (a..b).collect();
+        r.ev("for_each!(&(a..b))");
+        if res.is_err() || g != w {
+            r.fail("for_each!(&range)", "for_each!", desc.clone(), if res.is_err() { "<panic>".into() } else { format!("{:?}", g) }, format!("{:?}", w));
+        }
+        let mut g: Vec<T> = Vec::new();
+        let res = catch(|| {
+            konst::iter::eval!(&ri, rev(), for_each(|x| { g.push(x); if g.len() > FUEL { panic!("FUEL") } }));
+        });
+        let w: Vec<T> = (a..=b).rev().collect();
+        r.ev("eval!(&(a..=b),rev)");
+        if res.is_err() || g != w {
+            r.fail("eval!(&range_inclusive,rev)", "eval!", desc.clone(), if res.is_err() { "<panic>".into() } else { format!("{:?}", g) }, format!("{:?}", w));
+        }
         let gc = catch(|| konst::iter::eval!(a..=b, count()));
         r.ev("eval!(a..=b,count)");
         if gc != Ok((a..=b).count()) {
@@ -280,6 +300,26 @@ where
         r.fail("K4:range_from,take(n):extra-pull-overflow", "for_each!", desc.clone(), "<panic after yielding all n values>".into(), format!("{:?}", w));
     } else if res.is_err() || g != w {
         r.fail("for_each!(range_from,take)", "for_each!", desc.clone(), if res.is_err() { "<panic>".into() } else { format!("{:?}", g) }, format!("{:?}", w));
+    }
+    if !edge {
+        let rf = a..;
+        let mut g: Vec<T> = Vec::new();
+        let res = catch(|| {
+            konst::iter::for_each! {x in &rf, take(CAP) => g.push(x); if g.len() > FUEL { panic!("FUEL") }}
+        });
+        r.ev("for_each!(&(a..),take)");
+        if res.is_err() || g != w {
+            r.fail("for_each!(&range_from,take)", "for_each!", desc.clone(), if res.is_err() { "<panic>".into() } else { format!("{:?}", g) }, format!("{:?}", w));
+        }
+        let mut g: Vec<T> = Vec::new();
+        let res = catch(|| {
+            konst::iter::eval!(a.., zip(0..CAP), map(|(x, _)| x), for_each(|x| { g.push(x); if g.len() > FUEL { panic!("FUEL") } }));
+        });
+        r.ev("eval!(a..,zip)");
+        // zip pulls from the unbounded source first: one extra pull is unobservable here (start <= MAX - CAP - 1)
+        if res.is_err() || g != w {
+            r.fail("eval!(range_from,zip)", "eval!", desc.clone(), if res.is_err() { "<panic>".into() } else { format!("{:?}", g) }, format!("{:?}", w));
+        }
     }
     let mut k = konst::iter::into_iter!(a..);
     let mut s = a..;
